@@ -8,6 +8,7 @@ import (
 	"path/filepath"
 	"strings"
 	"time"
+	"unicode/utf8"
 
 	"github.com/spf13/afero"
 )
@@ -23,6 +24,53 @@ type Metadata struct {
 	Size    int64
 	Hash    []byte
 	Meta    map[string]string
+}
+
+// storedMetadata is the JSON form of Metadata. Header values are bytes and need
+// not be UTF-8 (Latin-1 file names in Content-Disposition, say); a JSON string
+// would replace such bytes. Those values are kept in MetaRaw (base64 in JSON).
+type storedMetadata struct {
+	File    string
+	ModTime time.Time
+	Size    int64
+	Hash    []byte
+	Meta    map[string]string
+	MetaRaw map[string][]byte `json:",omitempty"`
+}
+
+func (m Metadata) MarshalJSON() ([]byte, error) {
+	st := storedMetadata{File: m.File, ModTime: m.ModTime, Size: m.Size, Hash: m.Hash, Meta: m.Meta}
+	for k, v := range m.Meta {
+		if utf8.ValidString(v) {
+			continue
+		}
+		if st.MetaRaw == nil {
+			st.MetaRaw = map[string][]byte{}
+			st.Meta = make(map[string]string, len(m.Meta))
+			for k2, v2 := range m.Meta {
+				if utf8.ValidString(v2) {
+					st.Meta[k2] = v2
+				}
+			}
+		}
+		st.MetaRaw[k] = []byte(v)
+	}
+	return json.Marshal(st)
+}
+
+func (m *Metadata) UnmarshalJSON(bts []byte) error {
+	var st storedMetadata
+	if err := json.Unmarshal(bts, &st); err != nil {
+		return err
+	}
+	*m = Metadata{File: st.File, ModTime: st.ModTime, Size: st.Size, Hash: st.Hash, Meta: st.Meta}
+	for k, v := range st.MetaRaw {
+		if m.Meta == nil {
+			m.Meta = map[string]string{}
+		}
+		m.Meta[k] = string(v)
+	}
+	return nil
 }
 
 type metaPath struct {
